@@ -630,13 +630,19 @@ pub fn run_history<T: Elem>(
         h.r = None;
         h.w = None;
         let over = rng.range(1, 3);
-        let which = rng.below(2);
+        let which = rng.below(3);
         let used = h.model.len();
         let free = cap - used;
         rep.count("illegal_ops", 1);
         let ring = &h.ring;
         let out = catch(|| {
-            if which == 0 {
+            if which == 2 {
+                // writing past the window through the copy helper: the samples behind
+                // the window are committed, unread ones
+                let mut w = ring.write_buf().unwrap();
+                let src: Vec<T> = (0..w.len() + over).map(|i| T::from_id(0xF111 + i as u64)).collect();
+                w.fill_from_slice(&src);
+            } else if which == 0 {
                 let w = ring.write_buf().unwrap();
                 w.produce(free + over, &[]);
             } else {
@@ -646,10 +652,10 @@ pub fn run_history<T: Elem>(
         });
         if out.is_ok() {
             res = Some((
-                if which == 0 { "oversize-commit-accepted" } else { "oversize-consume-accepted" }.into(),
+                if which == 2 { "write-past-the-window-accepted" } else if which == 0 { "oversize-commit-accepted" } else { "oversize-consume-accepted" }.into(),
                 format!(
                     "{} of {} with only {} {} returned normally",
-                    if which == 0 { "commit" } else { "consume" },
+                    if which == 2 { "fill_from_slice past the window, as a commit" } else if which == 0 { "commit" } else { "consume" },
                     if which == 0 { free + over } else { used + over },
                     if which == 0 { free } else { used },
                     if which == 0 { "free" } else { "readable" }
